@@ -5,7 +5,15 @@
 package genql
 
 // every function of the package: error results are propagated (C19)
-//@ package-wide errors[C19] locks[C13]
+//@ package-wide errors[C19] locks[C13,C10] safety[C10] nonnil-params
+//
+// Pointer parameters of the functions below the API are non-nil (an obligation at every call site inside the module) unless a
+// contract says `nullable`; the API roots take whatever the caller passes.
+//@ crash-root New (*Query).Exec
+//@ api-root New (*Query).Exec (*Query).IsDual ExecReader RegisterFunction RegisterImmediateFunction RegisterExternalFunction RegisterTopLevelFunction Import
+//
+// What every function handed a *Query may rely on (established by New, Prepare and CopyQuery, checked at every call site):
+//@ type-invariant *Query wf: self.options != nil && self.groupDefinition != nil && self.singletonExecutions != nil && self.limitDefinition >= -1 && self.offsetDefinition >= -1
 
 // ---------------------------------------------------------------------------
 // plsql.go: the pipeline
@@ -169,7 +177,6 @@ package genql
 //@ global arrayPattern immutable [C13]
 //@ global pipePattern immutable [C13]
 //@ func ExecReader
-//@   requires free: !held(&mut)
 //@   locks[C13,C10,C19]
 //@   safety[C09]
 //@   trusted : value and frame of path evaluation are C09's and C11's subject; callers rely on this summary
@@ -315,3 +322,32 @@ package genql
 
 //@ func Prepare
 //@   ensures no-partial-result[C19]: result1 != nil ==> result == nil
+
+// recover handlers of the join workers and the wait-group forwarders
+
+//@ func (*Join).ParallelJoinFunc$1$1
+//@   requires free: !held(&mut)
+//@   guarded firstErr by mut
+//@   modifies cell(any) at &firstErr
+//@   modifies locks
+//@   ensures noop[C19,C10]: !panicking() ==> firstErr == old(firstErr)
+
+//@ func (*Join).ParallelHashJoinFunc$1$1
+//@   requires free: !held(&mut)
+//@   guarded firstErr by mut
+//@   modifies cell(any) at &firstErr
+//@   modifies locks
+//@   ensures noop[C19,C10]: !panicking() ==> firstErr == old(firstErr)
+
+//@ func BuildFromAliasedTable$1
+//@   requires captured: query != nil && subquery != nil
+
+//@ func SubqueryExpr$2
+//@   requires captured: query != nil && subQuery != nil
+
+//@ func ExistExpr$2
+//@   requires captured: query != nil && q != nil
+
+// a CTE under evaluation is not re-entered: its entry is replaced before its definition is built (C10: no unbounded recursion)
+//@ func BuildCte$1
+//@   at-call Prepare assert reentry-guard[C10]: data[id] != old(data[id])
